@@ -115,10 +115,14 @@ def make(variant, rec, clock) -> Dict[str, Any]:
 
     child_machine = None
     if kind == "child":
+        # the invoked child owns a GRANDCHILD registered under a systemId: whatever ends the activation (exit, completion,
+        # stop) must take the whole subtree with it
+        grand = create_machine({"id": "grand", "initial": "x", "states": {"x": {}}}, logic=MachineLogic())
         child_machine = create_machine(
             {"id": "kid", "initial": "run", "context": {"c": 1},
-             "states": {"run": {"after": {"250": "fin"}}, "fin": {"type": "final"}}},
-            logic=MachineLogic(),
+             "states": {"run": {"entry": [A.spawn_child("grand", actor_id="g", system_id="gsys")], "after": {"250": "fin"}},
+                        "fin": {"type": "final"}}},
+            logic=MachineLogic(services={"grand": grand}),
         )
     inv: Dict[str, Any] = {"id": "svc", "src": "S", "input": {"k": 1},
                            "onDone": {"target": "ok", "actions": ["od"]}}
@@ -159,7 +163,8 @@ def census(d) -> None:
     tasks = 0
     if hasattr(i, "task_manager"):
         tasks = len([t for t in i.task_manager._tasks_by_owner.get("m.work", ()) if not t.done()])
-    d.rec.log.append(("CENSUS", d.now(), active_work, kids, tasks, o[2]))
+    regs = {k: a.status for k, a in i._system.items()}
+    d.rec.log.append(("CENSUS", d.now(), active_work, kids, tasks, o[2], regs))
 
 
 def with_census(script: List[tuple]) -> List[tuple]:
@@ -234,11 +239,14 @@ def judge(variant, engine, script, log, d) -> List[Tuple[str, str]]:
                     if e[1] != want:
                         bad.append(("stale-result-drove-handler", f"activation {owner['idx']} (service call {k}) handled {e[0]} with data {e[1]!r}, expected {want!r}"))
         elif e[0] == "CENSUS":
-            _, t, active_work, kids, tasks, status = e
+            _, t, active_work, kids, tasks, status, regs = e
             if not active_work:
                 running = [k for k, st in kids.items() if st == "running"]
                 if running:
                     bad.append(("child-interpreter-running-after-exit", f"at t={t}: work inactive but child actors running: {running}"))
+                zombies = [k for k, st in regs.items() if st == "running"]
+                if zombies:
+                    bad.append(("descendant-of-ended-activation-still-running", f"at t={t}: work inactive but the system registry holds running actors {zombies}"))
                 if tasks:
                     bad.append(("service-task-alive-after-exit", f"at t={t}: work inactive but {tasks} live task(s) owned by it"))
         elif e[0] == "OP" and e[1] == "STOP":
